@@ -20,11 +20,11 @@ EXAMPLES = {"quick": 1200, "thorough": 24000}
 RULE = ("Generated: one asset of every class - SimpleContract, Contract, Transport, ExtendedTransport, Storage (incl. "
         "blocks / MIP options), MultiCommodityContract, CHPAsset, CHPAsset_with_min_load_costs, Plant, OrderBook "
         "(dict and DataFrame orders), ScaledAsset, StructuredAsset, LinkedAsset - with parameters as scalars, interval "
-        "dictionaries holding lists, numpy arrays or DatetimeIndex, price-column names; naive or zone-aware stamps; "
+        "dictionaries holding lists, numpy arrays (object arrays of Timestamps, datetime64 of resolution ns/us/s/m) or DatetimeIndex, price-column names; naive or zone-aware stamps; LinkedAsset with default or explicit running time of its partner; "
         "stand-alone or inside a portfolio with 0-2 further assets, with or without the portfolio's own time grid; "
         "saved before or after a set-up. Oracle: to_json and load_from_json succeed; the loaded object builds the "
         "identical problem (c,l,u,A,b,cType, mapping rows) as a fresh original on a generated grid and prices; "
-        "to_json(load(to_json(o))) == to_json(o); a portfolio's own grid returns with identical points, step "
+        "to_json(load(to_json(o))) == to_json(o) (for date arrays not in nanoseconds: the same after one round trip); a portfolio's own grid returns with identical points, step "
         "lengths and time zone; if the original portfolio can be set up with its own grid (e.g. naive interval data "
         "on a zone-aware grid) the loaded one can, with the identical problem. Non-trivial: class other than the "
         "four covered by the suite (simple contract, storage, order book, structured), or zone-aware stamps, or "
@@ -85,6 +85,25 @@ def _strategy(draw):
              "time_back": draw(st.sampled_from([0, 1])), "time_forward": draw(st.sampled_from([0, 0, 1])), "wacc": 0.0}
     else:
         a = gen.draw_asset(draw, cx, kind, "x")
+    if kind == "linked" and draw(st.booleans()):
+        # explicit running time of the partner, in general different from the partner's own attribute
+        a["asset2_time_already_running"] = draw(st.sampled_from([0, 1, 3])) * cx.dt0
+        a["time_back"] = draw(st.sampled_from([1, 2])) * cx.dt0
+    # numpy date arrays of coarser resolution than nanoseconds (minutes always represent the grid points)
+    u64 = draw(st.sampled_from([None, None, None, "ns", "us", "s", "m"]))
+    if u64:
+        def walk(x):
+            if isinstance(x, dict):
+                if "iv" in x:
+                    x["form"] = "array64:" + u64
+                if x.get("min_take") or x.get("max_take"):
+                    x["take_form"] = "array64:" + u64
+                for v in x.values():
+                    walk(v)
+            elif isinstance(x, list):
+                for v in x:
+                    walk(v)
+        walk(a)
     # stamps: naive on aware grid where interval data exist
     if g["tz"] is not None and draw(st.booleans()):
         a["naive"] = True
@@ -186,7 +205,16 @@ def check(spec):
     s2 = eao_call(serialization.to_json, obj2)
     if is_err(s2):
         return out.fail("to_json of the loaded object raised " + s2.short())
-    if s1 != s2:
+    arr64 = "array64" in core.canon(spec) and "array64:ns" not in core.canon(spec)
+    if arr64 and s1 != s2:
+        # date arrays that are not in nanoseconds are written as they are and come back in nanoseconds: the text
+        # may change once; demanded is that the loaded object is a fixed point (and builds the same problem, below)
+        out.label("json_normalised_once")
+        obj3 = eao_call(serialization.load_from_json, s2)
+        s3 = s2 if is_err(obj3) else eao_call(serialization.to_json, obj3)
+        if is_err(obj3) or is_err(s3) or s3 != s2:
+            out.fail("saving and loading the loaded %s a second time still changes the JSON" % spec["kind"])
+    elif s1 != s2:
         l1, l2 = s1.splitlines(), s2.splitlines()
         d = [(x, y) for x, y in zip(l1, l2) if x != y][:2]
         out.fail("saving the loaded %s does not reproduce the JSON (%d vs %d lines), e.g. %s" % (spec["kind"], len(l1), len(l2), d))
@@ -212,7 +240,8 @@ def check(spec):
                 out.fail("time zone of the portfolio's grid changes from %s to %s" % (g1.tz, g2.tz))
             if not np.array_equal(np.asarray(g1.dt), np.asarray(g2.dt)) or g1.main_time_unit != g2.main_time_unit:
                 out.fail("step lengths / main time unit of the portfolio's grid change")
-    arrays = any(isinstance(v, dict) and v.get("form") in ("array", "dtindex") for x in spec["assets"] for v in x.values())
+    arrays = any(isinstance(v, dict) and str(v.get("form")).startswith(("array", "dtindex")) for x in spec["assets"] for v in x.values())
+    out.label("date_array_resolution:" + core.canon(spec).split("array64:")[1][:2].strip('"') if "array64:" in core.canon(spec) else None)
     out.nontrivial = spec["kind"] not in ("simple", "storage", "orderbook", "structured") or spec["grid"]["tz"] is not None \
         or arrays or spec["after_setup"]
     return out
